@@ -617,25 +617,31 @@ def check_unit(unit, rlimit=None, seed=None, with_canary=True):
         with open(cpath, "w") as f:
             f.write(casm.text())
         cres = run_verus(cpath, rlimit=rlimit)
-        cstatus, cfails, cnotes = classify(cres)
-        if cstatus == "undecided":
-            raise Undecided(f"unit {unit} canary: " + "; ".join(cnotes))
+        # in the canary run a resource-limit hit while trying to prove `false` means "false was not proved": that is
+        # the expected outcome for that function (recorded as such), not a tool failure
+        vr = cres["json"].get("verification-results", {})
+        errors = [d for d in cres["diags"] if d.get("level") == "error" and not d.get("message", "").startswith("aborting due to")]
+        if vr.get("encountered-vir-error") or (vr.get("errors", 0) == 0 and not vr.get("success")):
+            raise Undecided(f"unit {unit} canary: does not compile: " + " | ".join(d.get("message", "") for d in errors)[:600])
         failed_fns = set()
-        for d in cfails:
-            if "assertion failed" not in d.get("message", ""):
-                continue
+        rlimit_fns = set()
+        for d in errors:
+            msg = d.get("message", "")
+            is_rl = "resource limit" in msg.lower() or "rlimit" in msg.lower()
             is_canary = False
             for sp in d.get("spans", []):
                 for t in sp.get("text", []):
                     if "[canary]" in t.get("text", ""):
                         is_canary = True
-            if not is_canary:
+            if not (is_rl or ("assertion failed" in msg and is_canary)):
                 continue
             _, site, _ = locate(casm, d)
             if site:
                 failed_fns.add(site["id"])
+                if is_rl:
+                    rlimit_fns.add(site["id"])
         missing = [f["id"] for f in casm.functions if f["id"] not in failed_fns]
-        out["canary"] = {"functions": len(casm.functions), "failed_as_expected": sorted(failed_fns), "vacuous": missing}
+        out["canary"] = {"functions": len(casm.functions), "failed_as_expected": sorted(failed_fns), "not_proved_within_rlimit": sorted(rlimit_fns), "vacuous": missing}
         if missing:
             raise Undecided(f"unit {unit}: vacuity canary PASSED for {missing}: contradictory assumptions or unreachable body; run is not trusted")
     out["wall_s"] = time.time() - t0
